@@ -10,6 +10,7 @@ import CvDriver.C09
 import CvDriver.C10
 import CvDriver.C16
 import CvDriver.C14
+import CvDriver.C01
 open Drv
 
 structure DState where
@@ -20,12 +21,17 @@ structure DState where
   outp : OutSt := {}
   integ : IntSt := {}
   shared : SharedSt := {}
+  geom : GeomSt := {}
 
 def stepLine (s : DState) (ln : Nat) (line : String) : DState × List String :=
   let t := toks line
+  let s := { s with geom := geomObserve s.geom t }
   match t with
   | [] => (s, [])
   | _ =>
+    match c01 s.geom ln t with
+    | some o => (s, o)
+    | none =>
     match c18 ln t with
     | some o => (s, o)
     | none =>
